@@ -2,6 +2,7 @@
 import common as C
 import gen as G
 import streams as S
+import abnf as ABNF
 
 ID = "C03"
 MODULE = "JmesVerif.Props.C03"
@@ -11,6 +12,7 @@ TRUSTED_BASE = [
     "Lean 4.33 kernel; axioms propext, Classical.choice, Quot.sound only",
     "hand-written models Model/Lexer.lean, Model/JsonText.lean (serde_json's JSON text grammar, modelled), Model/Parser.lean of lexer.rs / parser.rs, "
     "tied to the code by the `parse` correspondence stream of this run (Ok/Err of jmespath::parse vs the model, on every generated string)",
+    "tools/abnf.py: an independent chart recogniser of the published ABNF at token level judges generated token strings (<= 18 tokens) directly",
     "Spec/Grammar.lean `Legal` is the reading of the published ABNF at token level with binding powers; its four documented "
     "extensions (known findings F3, F4, F5 — and F16 for C04) are marked by the executable deviation counters in Spec/GrammarCheck.lean",
 ]
@@ -23,9 +25,37 @@ RULE = ("expression strings: corpus; structured sentences from a flat operand/op
 KNOWN_CLASSES = {"F3": 0, "F4": 1, "F5": 2}
 
 
+TOKS = {}      # expression text -> the token list it was spelled from (for the ABNF oracle)
+
+
+def abnf_cases(ctx, n):
+    """token strings with their tokens kept: flat sentences, one-token mutations of them, token soup — judged by the independent
+    recogniser of the published ABNF (tools/abnf.py), not by the model"""
+    rng = ctx.rng
+    eg = G.ExprGen(rng, funcs=True, maxdepth=2)
+    out = []
+    base = []
+    for _ in range(n):
+        r = rng.random()
+        if r < 0.35 or not base:
+            toks = eg.expr()
+            base.append(toks)
+        elif r < 0.85:
+            toks = G.near_miss(rng, rng.choice(base))
+        else:
+            toks = G.token_soup(rng)
+        if len(toks) > 18 or any(t in G.ODD_WS for t in toks):
+            continue
+        e = G.spell(rng, toks)
+        TOKS[e] = toks
+        out.append(("abnf", e))
+    return out
+
+
 def gen_cases(ctx):
     out = [("corpus", S.corpus_expr(l)) for l in S.load_corpus("C03")]
     q = ctx.tier == "quick"
+    out += abnf_cases(ctx, 4000 if q else 300000)
     out += S.expr_cases(ctx, 3000 if q else 300000, 3000 if q else 300000, 1500 if q else 150000,
                         1500 if q else 150000, 1000 if q else 100000)
     if not q:
@@ -42,6 +72,7 @@ def run(ctx):
     recs = S.parse_run(ctx, cases)
     kinds = {}
     known_seen = {}
+    abnf_stats = {"sentence": 0, "non-sentence": 0}
     for r in recs:
         ctx.evaluations += 1
         k = kinds.setdefault(r.kind, dict(ok=0, err=0))
@@ -57,6 +88,16 @@ def run(ctx):
             continue
         if r.model_ok and r.t1 != "ok":
             ctx.tie_broken("theorem T1 (C03_sound) vs driver self-check", f"{r.expr!r}: t1={r.t1}")
+        # the independent oracle: the published ABNF decides, the model only names the known deviation class of an accepted non-sentence
+        if r.kind == "abnf" and r.expr in TOKS:
+            sent = ABNF.is_sentence(TOKS[r.expr])
+            abnf_stats["sentence" if sent else "non-sentence"] += 1
+            if sent and not r.impl_ok:
+                ctx.violation("parse", r.expr, r.impl[:300], "compiles: it is a sentence of the published ABNF (tools/abnf.py derives it)")
+                continue
+            if not sent and r.impl_ok and not (r.model_ok and any(r.dev[ix] > 0 for ix in KNOWN_CLASSES.values())):
+                ctx.violation("parse", r.expr, r.impl[:300], "parse error: not a sentence of the published ABNF (and not one of the listed deviation classes)")
+                continue
         devs = [name for name, ix in KNOWN_CLASSES.items() if r.model_ok and r.dev[ix] > 0]
         if devs:
             # a non-sentence of the published grammar which the model of the code accepts
@@ -79,4 +120,5 @@ def run(ctx):
             ctx.violation("parse", ex, "compiles", "parse error (non-sentence of the published grammar)", f"deviation class {d} not listed as known")
     ctx.coverage["streams"] = ["parse"]
     ctx.coverage["by_generator"] = kinds
+    ctx.coverage["abnf_oracle"] = abnf_stats
     ctx.coverage["exhaustive"] = False
